@@ -274,6 +274,43 @@ func (r *Run) checkVariants(st *State, fr *Frame, li *LoopInfo) {
 	}
 }
 
+// atPanic: `at-panic #n label : cond` — cond holds whenever the n-th panic statement of the function (source order)
+// is reached; `false` states that the statement is unreachable under the assumed contracts of the callees.
+func (r *Run) atPanic(st *State, fr *Frame, x *ssa.Panic) {
+	e := r.e
+	blk := e.cs.Funcs[e.fnName[fr.Fn]]
+	if blk == nil || r.ownClausesOff(st, fr) || len(blk.All("at-panic")) == 0 {
+		return
+	}
+	n := 0
+	type pp struct {
+		pos int
+		in  *ssa.Panic
+	}
+	var all []pp
+	for _, b := range fr.Fn.Blocks {
+		for _, in := range b.Instrs {
+			if p, ok := in.(*ssa.Panic); ok {
+				all = append(all, pp{int(p.Pos()), p})
+			}
+		}
+	}
+	sort.Slice(all, func(i, j int) bool { return all[i].pos < all[j].pos })
+	for i, p := range all {
+		if p.in == x {
+			n = i
+		}
+	}
+	site := fmt.Sprintf("#%d", n)
+	e.sitesHit[e.fnName[fr.Fn]+"|panic"+site] = true
+	for _, cl := range blk.All("at-panic") {
+		if len(cl.Words) < 2 || cl.Words[0] != site {
+			continue
+		}
+		e.obligationClause(st, fr, fmt.Sprintf("%s/at-panic%s:%s", e.fnName[fr.Fn], site, cl.Label()), cl, nil)
+	}
+}
+
 func locksKey(ls []HeldLock) string {
 	var s []string
 	for _, l := range ls {
@@ -934,6 +971,7 @@ func (r *Run) step(st *State) []*State {
 		}
 		return r.doReturn(st, fr, res)
 	case *ssa.Panic:
+		r.atPanic(st, fr, x)
 		st.Panicking = true
 		st.PanicVal = r.val(st, fr, x.X)
 		st.Facts["panic.site"] = e.posOf(x)
